@@ -1477,7 +1477,7 @@ impl Property for C17 {
     type Scenario = Scenario;
 
     fn rule() -> String {
-        "seeded histories of 3-12 steps (UDP bind / TCP listener bind on wildcard, loopback, own specific, other hosts' and unknown addresses, v4 and v6, port 0 or a fixed port from a pool of 5 incl. two inside the ephemeral range; UDP connect to live or arbitrary peers; TCP connect (optionally with the SYN-ACK held on the wire so that the SYN is retransmitted) + accept; close; closing a listener (preferably a wildcard-bound one) while a handshake to it is in flight with its SYN-ACK kept on the wire, followed by a bind of the same address; ephemeral-cursor rotation by bind/drop incl. full wrap-around; in 1/4000 of the thorough scenarios and 3 fixed slots of the quick tier: filling the 16384-port range of one protocol and family, binding :0 until exhaustion, then re-opening single holes at seeded positions relative to the allocator's cursor (the port just behind it, its neighbours, anywhere) and binding :0 twice) on 1-3 hosts owning 1-3 addresses; after every step a probe sweep: uniquely tagged UDP datagrams from a fresh wildcard :0 socket per host and family and from every live UDP socket to every (address of every host + loopback + unknown, port of interest) pair, TCP connects from every host to the same destinations, one tagged message each way on every established connection; every result (bind Ok/error kind, chosen port, which socket observed which tag with which source, connect result, which listener accepted, addresses) is compared with the reference socket table written from the property text. Non-trivial: a sweep ran while >=2 live sockets shared a port number on one host; distinct = digest of step kinds, outcome kinds and per-sweep delivered counts".into()
+        "seeded histories of 3-12 steps (UDP bind / TCP listener bind on wildcard, loopback, own specific, other hosts' and unknown addresses, v4 and v6, port 0 or a fixed port from a pool of 5 incl. two inside the ephemeral range; UDP connect to live or arbitrary peers; TCP connect (optionally with the SYN-ACK held on the wire so that the SYN is retransmitted) + accept; close; closing a listener (preferably a wildcard-bound one) while a handshake to it is in flight with its SYN-ACK kept on the wire, followed by a bind of the same address; ephemeral-cursor rotation by bind/drop incl. full wrap-around; in 1/4000 of the thorough scenarios and 3 fixed slots of the quick tier: filling the 16384-port range of one protocol and family, binding :0 until exhaustion, then re-opening single holes at seeded positions relative to the allocator's cursor (the port just behind it, its neighbours, anywhere) and binding :0 twice) on 1-3 hosts owning 1-3 addresses; after every step a probe sweep: uniquely tagged UDP datagrams from a fresh wildcard :0 socket per host and family and from every live UDP socket to every (address of every host + loopback + unknown, port of interest) pair, TCP connects from every host to the same destinations, one tagged message each way on every established connection; every result (bind Ok/error kind, chosen port, which socket observed which tag with which source, connect result, which listener accepted, addresses) is compared with the reference socket table written from the property text. Non-trivial: a sweep ran while >=2 live sockets shared a port number on one host; distinct = digest of step kinds, outcome kinds and per-sweep delivered counts. Added later: 127.0.0.2 / 127.9.8.7 as bind and destination addresses; loopback-bound UDP sockets probing every address (the datagram may reach the socket its destination selects or nobody, never anybody else); connection closes in which one end closes, the wire settles and only then the passive end follows, in scenarios that probe only at the end; half-open children left to time out (only the first SYN gets through) before their listener is closed and its port bound again; a connecting end dropped without any wire round while the allocator is rotated once round its range and port 0 is asked for (the lingering connection's own port is not judged).".into()
     }
     fn components_real() -> Vec<&'static str> {
         vec!["turmoil-net: Kernel::bind / PortAllocator / SocketTable (binding + connection index), udp::deliver, tcp::deliver + find_listener + accept_syn, Fabric::deliver routing by destination IP, loopback fold-back in Kernel::egress, shim UdpSocket / TcpListener / TcpStream"]
